@@ -8,7 +8,7 @@ from ..model import Program, AnalysisError, own_nodes, norm, names_in, FuncInfo
 from ..cfg import cfg_of
 from ..guards import Env, walk, collect_atoms, valuations, describe_env
 from ..report import Report
-from ..util import callee_last, enclosing_stmt, parents, depends_on, helper_scopes
+from ..util import callee_last, enclosing_stmt, parents, depends_on, helper_scopes, single_assignments
 from ..absint.domain import AV, const
 from ..absint.interp import Interp, Unsupported, SelfObj, PTResult, Opaque, as_av
 from ..absint import semiring_laws
@@ -201,6 +201,24 @@ def externals(rep: Report, prog: Program) -> None:
                 neg_is_size = isinstance(x.body, ast.Constant) and x.body.value == 1
                 if isinstance(x.test.ops[0], ast.In) and pos_is_size: okr = True
                 if isinstance(x.test.ops[0], ast.NotIn) and neg_is_size: okr = True
+            # the comprehension pairs every node with its own size: for (n, s) in zip(<nodes>, <shape of the same nodes>)
+            for g, ren in scopes:
+                for comp in [x for x in own_nodes(g.node) if isinstance(x, (ast.ListComp, ast.GeneratorExp)) and any(y in ife for y in ast.walk(x.elt))]:
+                    gen = comp.generators[0]
+                    okz = False
+                    why = f"`{norm(gen.iter)[:60]}` is not zip(<nodes>, <their shape>)"
+                    if isinstance(gen.iter, ast.Call) and callee_last(gen.iter) == 'zip' and len(gen.iter.args) == 2 and isinstance(gen.target, ast.Tuple) and len(gen.target.elts) == 2:
+                        A, B = gen.iter.args
+                        nvar, svar = norm(gen.target.elts[0]), norm(gen.target.elts[1])
+                        sdef = single_assignments(g.node).get(norm(B)) if isinstance(B, ast.Name) else B
+                        shape_of = norm(sdef.args[0]) if isinstance(sdef, ast.Call) and callee_last(sdef) == 'shape' and sdef.args else None
+                        tests = [y for y in ast.walk(comp.elt) if isinstance(y, ast.IfExp)]
+                        uses_n = all(norm(y.test.left) == nvar for y in tests if isinstance(y.test, ast.Compare))
+                        uses_s = all(svar in names_in(y.body) | names_in(y.orelse) for y in tests)
+                        okz = shape_of == norm(A) and uses_n and uses_s
+                        why = 'each node is tested for connectedness and replaced by its own size' if okz else \
+                            f"zip({norm(A)}, {norm(B)}) with target ({nvar}, {svar}): the membership test must be on the node and the size must be the size of the same node (shape computed from `{shape_of}`)"
+                    rep.ob(rule, g.fq(), f"restore: {norm(comp)[:90]}", g.loc(comp), okz, why)
             views = [x for g, ren in scopes for x in own_nodes(g.node) if isinstance(x, ast.Call) and callee_last(x) == 'expand' and isinstance(x.func.value, ast.Call) and callee_last(x.func.value) == 'view']
             rep.ob(rule, f.fq(), 'restore: view(size if connected else 1).expand(full shape)', f.loc(a), okr and bool(views),
                    'removed externals come back as broadcast axes of their domain size' if okr and views else 'the removed externals are not restored consistently with the removal test')
